@@ -92,6 +92,8 @@ def _run_program(args):
         np.random.seed(seed % (2 ** 31))
         if origin == "create_test_matrix":
             M = q_to_float(np.asarray(L.data_gen.create_test_matrix(d0["m"], d0["n"], rank=d0["r"])))
+        elif origin == "create_test_matrix_cond":
+            M = q_to_float(np.asarray(L.data_gen.create_test_matrix(d0["m"], d0["n"], rank=d0["r"], cond_number=8.0)))
         else:
             M = q_to_float(np.asarray(L.data_gen.generate_random_unitary_matrix(d0["n"])))
         heap = [M]
@@ -99,7 +101,7 @@ def _run_program(args):
         got = desc(M)
         if got.pop("_amb", False):
             return ev, 1
-        if origin == "create_test_matrix":
+        if origin.startswith("create_test_matrix"):
             got["orth"], got["herm"], got["tri"] = claimed["orth"], claimed["herm"], claimed["tri"]     # only shape and rank are promised
         else:
             got["herm"], got["tri"] = claimed["herm"], claimed["tri"]
